@@ -594,14 +594,41 @@ func genRemoveBelow(g *common.Gen) {
 	g.Stat("scenario.remove-below")
 }
 
+// genTwoStrategies: strategy choices for two (or three) different prefixes naming DIFFERENT strategies, one
+// after the other through the same module, then the listing and a fib/list: a later command must not
+// rewrite what an earlier one stored.
+func genTwoStrategies(g *common.Gen) {
+	r := g.R
+	fA := common.Pick(r, []string{"2", "3"})
+	cmd := func(module, verb, params string, tail int) {
+		g.Op("cmd %s - %s %s %s %d %s", fA, pLocalhost, gc(module), gc(verb), tail, params)
+	}
+	names := []string{"/8:61", "/8:62", "/8:61/8:63", "/8:64/8:65"}
+	strat := []string{stratPfx + "/" + gc("multicast"), stratPfx + "/" + gc("best-route"), stratPfx + "/" + gc("multicast") + "/54:01"}
+	k := r.Intn(len(strat))
+	for j := r.Range(2, 3); j > 0; j-- {
+		cmd("strategy-choice", "set", "N="+common.Pick(r, names)+";S="+strat[k%len(strat)], 1)
+		k++
+	}
+	cmd("strategy-choice", "list", "-", 0)
+	g.Stat("scenario.two-strategies")
+}
+
 func gen(g *common.Gen) {
 	for i := 0; i < g.N; i++ {
 		lh := g.R.Intn(2)
 		alg := common.Pick(g.R, []string{"nametree", "nametree", "hashtable"})
-		g.Op("new lh=%d fib=%s", lh, alg)
 		g.Stat("config.lh" + fmt.Sprint(lh) + "." + alg)
+		if g.R.Chance(1, 2) {
+			alg += "+rv" // with the NLSR readvertiser behind the RIB (the daemon's default)
+			g.Stat("config.readvertiser")
+		}
+		g.Op("new lh=%d fib=%s", lh, alg)
 		n := g.R.Range(8, 16)
-		nestedAt, reregAt, removeAt := -1, -1, -1
+		nestedAt, reregAt, removeAt, stratAt := -1, -1, -1, -1
+		if g.R.Chance(1, 3) {
+			stratAt = g.R.Intn(n)
+		}
 		if g.R.Chance(1, 3) {
 			nestedAt = g.R.Intn(n)
 		}
@@ -620,6 +647,9 @@ func gen(g *common.Gen) {
 			}
 			if k == removeAt {
 				genRemoveBelow(g)
+			}
+			if k == stratAt {
+				genTwoStrategies(g)
 			}
 			genOp(g)
 		}
